@@ -210,16 +210,25 @@ func chunked(body []byte, sizes []int, ext bool, st *ChunkStyle) []byte {
 		if i+n > len(body) {
 			n = len(body) - i
 		}
-		switch {
-		case st.Ext != "" && (first || n >= len(st.Ext)):
-			// (net/http's reader gives up on a body whose framing outweighs its
-			// data by more than 16 KiB: long extensions go with chunks of their size)
-			fmt.Fprintf(&b, "%0*x%s\r\n", st.Pad, n, st.Ext)
-		case ext && k%2 == 1:
-			fmt.Fprintf(&b, "%0*x;verif=1\r\n", st.Pad, n)
-		default:
-			fmt.Fprintf(&b, "%0*x\r\n", st.Pad, n)
+		// net/http's chunked reader (on either side of the proxy, and in the
+		// harness) gives up on a body whose framing outweighs its data: a chunk
+		// line may cost 12 bytes plus twice the chunk's length, what exceeds that
+		// adds up to at most 16 KiB per body. Only the first chunk line (and the
+		// last-chunk line) may exceed it here; the others fall back to a form that fits.
+		ext1 := ""
+		if st.Ext != "" {
+			ext1 = st.Ext
+		} else if ext && k%2 == 1 {
+			ext1 = ";verif=1"
 		}
+		line := fmt.Sprintf("%0*x%s", st.Pad, n, ext1)
+		if !first && len(line) > 12+2*n {
+			line = fmt.Sprintf("%0*x", st.Pad, n)
+		}
+		if !first && len(line) > 12+2*n {
+			line = fmt.Sprintf("%x", n)
+		}
+		b.WriteString(line + "\r\n")
 		first = false
 		b.Write(body[i : i+n])
 		b.WriteString("\r\n")
@@ -1154,7 +1163,7 @@ var propRelay = &kit.Prop[Case]{
 
 func TestRelay(t *testing.T) {
 	kit.Assume("only the last exchange of a script asks to close (requests pipelined behind a closing exchange may legitimately be lost)")
-	kit.Assume("Expect: 100-continue, Upgrade and trailers are not generated")
+	kit.Assume("Expect: 100-continue and Upgrade are not generated; trailer sections and chunk extensions are generated but only the body they frame is compared")
 	kit.Assume("singleton fields (User-Agent, Authorization, Referer, Cookie, Content-Type, ETag, Content-Language) are never repeated; repeated names are list-valued or extension fields")
 	propRelay.Check(t, kit.N(1200, 1500))
 }
